@@ -279,9 +279,16 @@ def c13_r3(ctx: Ctx, rule):
             if isinstance(n, (ast.For, ast.comprehension)):
                 it = n.iter
                 whole = None
-                if isinstance(it, ast.Call) and isinstance(it.func, ast.Attribute) and it.func.attr in ("items", "values") and isinstance(it.func.value, ast.Attribute) and it.func.value.attr == mm:
+
+                def is_mm(e):
+                    # the multimap itself, or a local bound to it once (attributes = self._attributes)
+                    if isinstance(e, ast.Name):
+                        e = resolve_local(fi.node, e)
+                    return isinstance(e, ast.Attribute) and e.attr == mm
+
+                if isinstance(it, ast.Call) and isinstance(it.func, ast.Attribute) and it.func.attr in ("items", "values") and is_mm(it.func.value):
                     whole = it.func.attr
-                elif isinstance(it, ast.Attribute) and it.attr == mm:
+                elif is_mm(it):
                     whole = "keys"
                 if not whole:
                     continue
